@@ -279,6 +279,144 @@ def case_isometry_batch(case):
 
 
 # ------------------------------------------------------------------------------------------
+# find_isometry for diagonal forms diag(+-1) with the signs in EVERY order: M B M^T = B
+# ------------------------------------------------------------------------------------------
+def _frame_signs(B, rows):
+    """Exact signs of the square norms of the Gram-Schmidt frame of the ordered rows (ratios of consecutive
+    leading Gram minors); None outside the Gram-Schmidt domain."""
+    minors = L.leading_minors(L.gram(B, rows))
+    if any(m == 0 for m in minors):
+        return None
+    out, prev = [], 1
+    for m in minors:
+        out.append(1 if (m > 0) == (prev > 0) else -1)
+        prev = m
+    return out
+
+
+def _check_preserving_unit(v, R, M, Bf, k, fo, order, where):
+    n = Bf.shape[0]
+    if M.shape != (n, n):
+        v.append(_V("find_isometry/shape/diagonal-form/" + where, "result shape %r, expected %r" % (M.shape, (n, n))))
+        return None
+    if not np.all(np.isfinite(M)):
+        v.append(_V("find_isometry/diagonal-form/non-finite/%s" % where, "partial frame %r, form diag%r" % (R.tolist(), np.diag(Bf).tolist())))
+        return None
+    G = M @ Bf @ M.T
+    err = float(np.max(np.abs(G - Bf)))
+    if err > TAU:
+        off, un = L.offdiag_and_unit_error(G)
+        sub = "sign-order" if off <= TAU and un <= TAU else "not-orthonormal"
+        v.append(_V("find_isometry/diagonal-form/M-B-Mt-differs-from-B/%s/%s/%s" % (sub, order, where),
+                    "form diag%r, partial frame %r (its frame has the signs of the leading diagonal entries), force_oriented=%r: "
+                    "diag(M B M^T) = %r" % (np.diag(Bf).astype(int).tolist(), R.tolist(), fo, np.round(np.diag(G), 6).tolist())))
+        return None
+    j = _flag_ok(R, M, k)
+    if j:
+        v.append(_V("find_isometry/diagonal-form/flag/%s/%s" % (order, where),
+                    "form diag%r, partial frame %r: first %d rows of the result do not span the first %d given rows" % (
+                        np.diag(Bf).astype(int).tolist(), R.tolist(), j, j)))
+    d = float(np.linalg.det(M))
+    if fo and not d > 0:
+        v.append(_V("find_isometry/diagonal-form/orientation/%s/%s" % (order, where),
+                    "form diag%r, partial frame %r force_oriented=True: det = %r" % (np.diag(Bf).astype(int).tolist(), R.tolist(), d)))
+    return d > 0
+
+
+def _sign_order(signs):
+    s = list(signs)
+    if all(x == s[0] for x in s):
+        return "definite"
+    if s == sorted(s):
+        return "negative-first"
+    if s == sorted(s, reverse=True):
+        return "positive-first"
+    return "interleaved"
+
+
+@_quiet
+def case_isometry_diag(case):
+    """All ordered k-subsets (k < n) of the row alphabet with a given first row, for the form B = diag(signs):
+    when the Gram-Schmidt frame of the rows has the signs of the first k diagonal entries of B (exact test; a
+    form-preserving completion then exists), find_isometry must return M with M B M^T = B, the flag and the
+    orientation.  The first compatible row sets are also sent as batches, together with an incompatible one."""
+    from geometry_tools import utils
+    signs, rows, k, head = case["signs"], case["alphabet"], case["k"], list(case["head"])
+    n = len(signs)
+    B = [[signs[i] if i == j else 0 for j in range(n)] for i in range(n)]
+    Bf = np.array(B, dtype=float)
+    order = _sign_order(signs)
+    rest = [i for i in range(len(rows)) if i not in head]
+    v, t, outs, compat, incompat = [], 0, set(), [], []
+    for tail in itertools.permutations(rest, k - len(head)):
+        rs = [list(rows[i]) for i in head + list(tail)]
+        fs = _frame_signs(B, rs)
+        if fs is None:
+            continue
+        if fs != list(signs[:k]):
+            incompat.append(rs)
+            continue
+        compat.append(rs)
+        R = np.array(rs, dtype=float)
+        for fo in (False, True):
+            M = utils.find_isometry(Bf, R.copy(), fo)
+            t += 1
+            outs.add(_check_preserving_unit(v, R, M, Bf, k, fo, order, "single"))
+            if k == 1:
+                M1 = utils.find_isometry(Bf, R[0].copy(), fo)
+                t += 1
+                _check_preserving_unit(v, R, M1, Bf, k, fo, order, "vector")
+        if len(v) >= 4:
+            break
+    if compat and not v:
+        units = compat[:4] + incompat[:1]
+        for shape in ((len(units),), (2, 3)):
+            arr, idx = _shape_tile(units, shape)
+            for fo in (False, True):
+                M = utils.find_isometry(Bf, arr.copy(), fo)
+                t += 1
+                if M.shape != tuple(shape) + (n, n):
+                    v.append(_V("find_isometry/shape/diagonal-form/batch", "result shape %r for input %r" % (M.shape, arr.shape)))
+                    break
+                Mf, Af = M.reshape((-1, n, n)), arr.reshape((-1, k, n))
+                for i, u in enumerate(idx):
+                    if u < len(compat[:4]):
+                        _check_preserving_unit(v, Af[i], Mf[i], Bf, k, fo, order, "batch")
+                    if v:
+                        break
+                if v:
+                    break
+            if v:
+                break
+    return {"v": v[:4], "t": t, "nt": bool(compat), "o": repr((signs, k, head, len(compat), len(incompat), sorted(outs, key=repr)))}
+
+
+def diag_isometry_cases(nmax_all, extra, m_rows, seed):
+    """every sign vector of length n <= nmax_all, and for the dimensions in `extra` the negative-first, positive-first
+    and alternating vectors of every signature; ordered k-subsets grouped by first row as in rowset_groups."""
+    for n in range(1, max([nmax_all] + list(extra)) + 1):
+        if n <= nmax_all:
+            vecs = [list(sv) for sv in itertools.product((-1, 1), repeat=n)]
+        elif n in extra:
+            vecs = []
+            for pneg in range(n + 1):
+                for sv in ([-1] * pneg + [1] * (n - pneg), [1] * (n - pneg) + [-1] * pneg):
+                    if sv not in vecs:
+                        vecs.append(sv)
+            for sv in ([(-1) ** i for i in range(n)], [(-1) ** (i + 1) for i in range(n)]):
+                if sv not in vecs:
+                    vecs.append(sv)
+        else:
+            continue
+        rows = L.row_alphabet(n, m_rows(n), seed)
+        for sv in vecs:
+            for k in range(1, n):
+                heads = [[]] if k == 1 else [[i] for i in range(len(rows))]
+                for head in heads:
+                    yield {"signs": sv, "alphabet": rows, "k": k, "head": head}
+
+
+# ------------------------------------------------------------------------------------------
 # find_definite_isometry (accepts the row or the column convention, see run())
 # ------------------------------------------------------------------------------------------
 def _check_definite_unit(v, R, M, k, fo, where):
@@ -1290,6 +1428,17 @@ def run(ctx):
                          "excluded": "normalize / indefinite_orthogonalize (they rescale rows in place by design; flags are unchanged)"})
     ctx.product("orthogonalize", "checks.c18:case_orth_group", rowset_groups(nmax, m_rows, seed, False), domains=dom_forms, chunk=4)
     ctx.product("find_isometry", "checks.c18:case_isometry_group", rowset_groups(nmax, m_rows, seed, False), domains=dom_forms, chunk=4)
+    ctx.assume("find_isometry with a DIAGONAL form diag(+-1), the signs in any order (utils.indefinite_form(p, q, neg_first=False) is "
+               "positive-first): when the Gram-Schmidt frame of the k given rows has the signs of the first k diagonal entries (exact "
+               "test: then a form-preserving completion exists), 'a matrix preserving the form' is demanded literally, M B M^T = B; "
+               "for non-diagonal forms B = Q^T D Q the rows of the result are form-orthonormal by the docstring, so M B M^T is diagonal "
+               "and cannot equal B: there the demand stays orthonormality (sections find_isometry, find_isometry-batch)")
+    dcases = list(diag_isometry_cases(5, () if q else (6,), m_rows, seed))
+    ctx.product("find_isometry-diagonal-forms", "checks.c18:case_isometry_diag", dcases, chunk=4,
+                domains={"forms": "diag(s), every sign vector s in {-1,+1}^n, n <= %d%s" % (5, "" if q else "; n = 6: negative-first, positive-first and alternating vectors of every signature"),
+                         "partial frames": "every ordered k-subset (1 <= k < n) of the row alphabet whose Gram-Schmidt frame has the signs s[:k] (exact)",
+                         "force_oriented": [False, True], "call forms": ["(k, n) array", "single vector (k = 1)", "batches of shape (5,) and (2,3) mixing 4 compatible and 1 incompatible frame"],
+                         "demand": "M B M^T = B (1e-8), flag, det > 0 on request"})
     nb = 4 if q else 5
     ctx.product("orthogonalize-batch", "checks.c18:case_orth_batch", batch_cases(nb, m_rows, seed, False),
                 domains={"shapes": SHAPES_R2, "units": 5, "nmax": nb}, chunk=64)
